@@ -35,9 +35,16 @@ type c19Case struct {
 	// Ret is what the recovery function returns: "" coded error | uncoded |
 	// wrapped-coded | ctx-deadline | coded-meta
 	Ret string `json:"ret,omitempty"`
+	// KeepOpen (bidi, point 0): the client sends one message and waits in
+	// Receive with its request side still open; it half-closes only after
+	// Receive has returned.
+	KeepOpen bool `json:"keep_open,omitempty"`
 }
 
 func (k c19Case) key() string {
+	if k.KeepOpen {
+		return fmt.Sprintf("%s/%s/%s/p%d/b%da%d/panicnil=%v/ret=%s/request-kept-open", k.Proto, k.Kind, k.Value, k.Point, k.Before, k.After, k.PanicNil, k.Ret)
+	}
 	if k.Ret != "" {
 		return fmt.Sprintf("%s/%s/%s/p%d/b%da%d/panicnil=%v/ret=%s", k.Proto, k.Kind, k.Value, k.Point, k.Before, k.After, k.PanicNil, k.Ret)
 	}
@@ -191,6 +198,28 @@ func c19RunMode(k c19Case, withRecover, returnInstead bool) c19Result {
 	tr := &memhttp.Transport{Handler: h, Proto: 2, SyncCloseReq: true}
 	cl := NewClient(tr, Cfg{Proto: k.Proto, Comp: CompNone})
 	out.Guard = Guarded(func() {
+		if k.KeepOpen {
+			st := cl.CallBidiStream(context.Background())
+			if err := st.Send(&BV{Value: []byte{1}}); err != nil && !errors.Is(err, io.EOF) {
+				out.Res.Err = err
+			}
+			for out.Res.Err == nil {
+				m, err := st.Receive()
+				if err != nil {
+					if !errors.Is(err, io.EOF) {
+						out.Res.Err = err
+					} else {
+						out.Res.EndErr = err
+					}
+					break
+				}
+				out.Res.Msgs = append(out.Res.Msgs, MsgBytes(m))
+			}
+			out.Res.Header, out.Res.Trailer = st.ResponseHeader(), st.ResponseTrailer()
+			_ = st.CloseRequest()
+			_ = st.CloseResponse()
+			return
+		}
 		out.Res = RunCall(context.Background(), cl, k.Kind, [][]byte{{1}}, nil)
 	}, tr)
 	if ex := tr.Last(); ex != nil {
@@ -328,6 +357,9 @@ func c19Cases(thorough bool) []c19Case {
 							}
 							for _, pn := range []bool{false, true} {
 								out = append(out, c19Case{Proto: p, Kind: kind, Value: v, Point: pt, Before: before, After: after, PanicNil: pn})
+								if kind == KBidi && pt == 0 && v != "none" && before+after <= 1 {
+									out = append(out, c19Case{Proto: p, Kind: kind, Value: v, Point: pt, Before: before, After: after, PanicNil: pn, KeepOpen: true})
+								}
 								if (v == "eof" || v == "wrapped-eof") && before+after <= 1 {
 									out = append(out, c19Case{Proto: p, Kind: kind, Value: v, Point: pt, Before: before, After: after, PanicNil: pn, Ret: "coded-wraps-cause"})
 								}
